@@ -493,6 +493,8 @@ class Node:
         # strings
         seen_keys = set()  # type: Set[str]
         for item in attr_node.seq_items():
+            if not item.is_mapping():
+                return
             key_attr_node = item.get_attribute(key_attribute)
             if not key_attr_node.is_scalar(str):
                 raise SeasoningError('Expected a string here')
@@ -511,13 +513,13 @@ class Node:
             # we've already checked that it's a SequenceNode above
             key_node = item.get_attribute(key_attribute).yaml_node
             item.remove_attribute(key_attribute)
-            if value_attribute is not None:
+            if (
+                    value_attribute is not None and
+                    len(item.yaml_node.value) == 1 and
+                    item.has_attribute(value_attribute)):
+                # no other attributes, use short form
                 value_node = item.get_attribute(value_attribute).yaml_node
-                if len(item.yaml_node.value) == 1:
-                    # no other attributes, use short form
-                    mapping_values.append((key_node, value_node))
-                else:
-                    mapping_values.append((key_node, item.yaml_node))
+                mapping_values.append((key_node, value_node))
             else:
                 mapping_values.append((key_node, item.yaml_node))
 
@@ -613,14 +615,17 @@ class Node:
         if not attr_node.is_mapping():
             return
 
+        if value_attribute is None:
+            for _, item_value in attr_node.yaml_node.value:
+                if not isinstance(item_value, yaml.MappingNode):
+                    return      # invalid format
+
         start_mark = attr_node.yaml_node.start_mark
         end_mark = attr_node.yaml_node.end_mark
         object_list = []
         for item_key, item_value in attr_node.yaml_node.value:
             item_value_node = Node(item_value)
             if not item_value_node.is_mapping():
-                if value_attribute is None:
-                    return      # invalid format
                 ynode = item_value_node.yaml_node
                 item_value_node.make_mapping()
                 item_value_node.yaml_node.start_mark = item_key.start_mark
@@ -738,12 +743,12 @@ class Node:
         if not attr_node.is_mapping():
             return
 
+        for _, value_node in attr_node.yaml_node.value:
+            if not isinstance(value_node, yaml.MappingNode):
+                return
+
         new_value = list()
         for key_node, value_node in attr_node.yaml_node.value:
-            if not isinstance(value_node, yaml.MappingNode):
-                raise SeasoningError(
-                    'Values must be mappings for key "{}"'.format(attribute))
-
             # filter out key atttribute
             value_node.value = [
                     (k, v) for k, v in value_node.value
